@@ -18,6 +18,8 @@ structure Par where
   size : Nat
   reqGrad : Bool
   hasGrad : Bool
+  /-- the value held by the gradient buffer (a constant fill is all the module programs need) -/
+  gval : Option Int := none
 deriving Repr, DecidableEq
 
 structure World where
@@ -42,7 +44,7 @@ deriving Repr, DecidableEq
 
 def newMod (w : World) : World × Nat := ({ w with mods := w.mods ++ [⟨[], [], true⟩] }, w.mods.length)
 def newPar (w : World) (size : Nat) (rg : Bool) : World × Nat :=
-  ({ w with pars := w.pars ++ [⟨size, rg, false⟩] }, w.pars.length)
+  ({ w with pars := w.pars ++ [{ size := size, reqGrad := rg, hasGrad := false }] }, w.pars.length)
 
 def updMod (w : World) (m : Nat) (f : Mod → Mod) : World :=
   { w with mods := w.mods.zipIdx.map (fun (x, i) => if i = m then f x else x) }
@@ -101,7 +103,16 @@ def numParams (w : World) (m : Nat) : Nat × Nat × Nat :=
   ((ps.map (·.size)).sum, ((ps.filter (·.reqGrad)).map (·.size)).sum, ((ps.filter (!·.reqGrad)).map (·.size)).sum)
 
 def zeroGrad (w : World) (m : Nat) : World :=
-  (parameters w (fuelOf w) m).foldl (fun w p => updPar w p (fun P => if P.reqGrad then { P with hasGrad := true } else P)) w
+  (parameters w (fuelOf w) m).foldl (fun w p => updPar w p (fun P => if P.reqGrad then { P with hasGrad := true, gval := some 0 } else P)) w
+/-- `p.grad = Tensor(full(v))` through the public setter -/
+def setGradVal (w : World) (p : Nat) (v : Int) : World := updPar w p (fun P => { P with hasGrad := true, gval := some v })
+/-- `q.grad = p.grad` (a no-op when `p` has no gradient or the sizes differ): `q` now holds the same VALUES; whatever later
+    happens to `p`'s gradient does not change `q`'s -/
+def shareGrad (w : World) (p q : Nat) : World :=
+  match w.pars[p]?, w.pars[q]? with
+  | some P, some Q => if P.hasGrad && P.size == Q.size then updPar w q (fun Q' => { Q' with hasGrad := true, gval := P.gval }) else w
+  | _, _ => w
+
 def setReqGrad (v : Bool) (w : World) (m : Nat) : World :=
   (parameters w (fuelOf w) m).foldl (fun w p => updPar w p (fun P => { P with reqGrad := v })) w
 
